@@ -177,7 +177,7 @@ def run(case):
 
     drive.run_history(sa, case, on_eval=on_eval, before_refine=before_refine, after_refine=after_refine)
     out.nontrivial = bool(st_["ext"] and st_["spl"])
-    out.cls(drive.scale_class(case))
+    out.cls(drive.scale_class(case), "bounds-given-as=%s" % (case.get("bounds") or "float-arrays"))
     out.cls("version=%d" % case["version"], "estimator=%s" % case["estimator"], "boundary=%s" % case["boundary"],
             "auto=%s" % case["auto"], "ssd=%s" % case["ssd"])
     if st_["ext"]:
@@ -197,7 +197,7 @@ def run(case):
 
 
 def strategy(tier):
-    return drive.st_es_case(tier=tier, scales=True, dim4=True)
+    return drive.st_es_case(tier=tier, scales=True, dim4=True, bounds_forms=True)
 
 
 def fixed_cases():
